@@ -1,5 +1,5 @@
-(* C15 — property theorems only.  Proofs live in Proofs/MergeProofs.v (and MeshProofs.v). *)
-From Coq Require Import List String Bool Arith ZArith.
+(* C15 — property theorems only.  Proofs live in Proofs/MergeProofs.v and Proofs/MeshProofs.v. *)
+From Coq Require Import List String Bool Arith ZArith Permutation.
 From Annet Require Import Model.Merge Spec.P_C15 Proofs.MergeProofs.
 Import ListNotations.
 Open Scope string_scope.
@@ -15,3 +15,94 @@ Proof.
   - intros H. apply merge_unset_left. apply wf_obj_fields_in. exact H.
 Qed.
 Print Assumptions C15_unset_neutral.
+
+(* merge is associative for every merger (UseFirst/UseLast included), at any nesting depth:
+   (a+b)+c and a+(b+c) are both MergeForbiddenError or both defined and equal (objects and
+   dicts as finite maps, sets by membership, lists element by element). *)
+Theorem C15_assoc :
+  forall (sch : schema) (a b c : entries),
+    wf_obj sch a = true -> wf_obj sch b = true -> wf_obj sch c = true ->
+    same_exact sch (bind (merge sch a b) (fun ab => merge sch ab c))
+                   (bind (merge sch b c) (fun bc => merge sch a bc)) = true.
+Proof. exact merge_assoc. Qed.
+Print Assumptions C15_assoc.
+
+(* merge a b and merge b a: both errors, or equal with Concat fields compared as multisets.
+   Classes using UseFirst/UseLast anywhere are order dependent by declaration and excluded
+   (see C15_uselast_is_order_dependent). *)
+Theorem C15_comm_mod_concat :
+  forall (sch : schema) (a b : entries),
+    order_free (MMerge sch) = true -> wf_obj sch a = true -> wf_obj sch b = true ->
+    same_mod_concat sch (merge sch a b) (merge sch b a) = true.
+Proof. exact merge_comm_mod_concat. Qed.
+Print Assumptions C15_comm_mod_concat.
+
+(* Folding merge over the outputs of any number of handlers gives the same result for every
+   order of the handlers (modulo the element order of Concat fields), or an error for every
+   order. *)
+Theorem C15_handler_order :
+  forall (sch : schema) (objs objs' : list entries),
+    order_free (MMerge sch) = true ->
+    Forall (fun a => wf_obj sch a = true) objs ->
+    Permutation objs objs' ->
+    same_mod_concat sch (merge_list sch objs) (merge_list sch objs') = true.
+Proof. exact merge_list_perm. Qed.
+Print Assumptions C15_handler_order.
+
+(* the same for any single field value and merger, nested or not *)
+Theorem C15_field_order :
+  forall (m : merger) (l l' : list value),
+    order_free m = true ->
+    Forall (fun v => wf_val m v = true) l -> Permutation l l' ->
+    req true m (nfold (merge_val m) l) (nfold (merge_val m) l').
+Proof. intros m l l' H. apply nfold_perm. exact H. Qed.
+Print Assumptions C15_field_order.
+
+(* ---- non-vacuity -------------------------------------------------------------------------- *)
+
+Definition ex_leaf : schema :=
+  [("asnum", MForbidChange); ("families", MUnite); ("routes", MConcat); ("once", MForbid)].
+Definition ex_sch : schema :=
+  [("addr", MForbidChange); ("opts", MMerge ex_leaf); ("groups", MDictMerge (MMerge ex_leaf))].
+Definition ex_a : entries :=
+  [("addr", VAtom (AStr "10.0.0.1"));
+   ("opts", VObj [("asnum", VAtom (AInt 65001)); ("routes", VList [AStr "r1"]); ("families", VSet [AStr "v4"])]);
+   ("groups", VDict [("g", VObj [("routes", VList [AStr "x"])])])].
+Definition ex_b : entries :=
+  [("opts", VObj [("routes", VList [AStr "r2"]); ("families", VSet [AStr "v6"; AStr "v4"]); ("asnum", VAtom (AInt 65001))]);
+   ("groups", VDict [("h", VObj [("once", VAtom (AInt 1))]); ("g", VObj [("routes", VList [AStr "y"])])]);
+   ("addr", VAtom (AStr "10.0.0.1"))].
+Definition ex_c : entries :=
+  [("opts", VObj [("asnum", VAtom (AInt 65002))])].
+
+Example C15_example_guards :
+  order_free (MMerge ex_sch) = true /\
+  wf_obj ex_sch ex_a = true /\ wf_obj ex_sch ex_b = true /\ wf_obj ex_sch ex_c = true.
+Proof. vm_compute. repeat split. Qed.
+
+(* defined both ways, equal only modulo Concat order *)
+Example C15_example_comm :
+  merge ex_sch ex_a ex_b =
+    Ok [("addr", VAtom (AStr "10.0.0.1"));
+        ("opts", VObj [("asnum", VAtom (AInt 65001)); ("routes", VList [AStr "r1"; AStr "r2"]);
+                       ("families", VSet [AStr "v4"; AStr "v6"])]);
+        ("groups", VDict [("g", VObj [("routes", VList [AStr "x"; AStr "y"])]);
+                          ("h", VObj [("once", VAtom (AInt 1))])])] /\
+  same_exact ex_sch (merge ex_sch ex_a ex_b) (merge ex_sch ex_b ex_a) = false /\
+  same_mod_concat ex_sch (merge ex_sch ex_a ex_b) (merge ex_sch ex_b ex_a) = true.
+Proof. vm_compute. repeat split. Qed.
+
+(* a conflict (two AS numbers) is an error in every order *)
+Example C15_example_conflict :
+  map (merge_list ex_sch) [[ex_a; ex_b; ex_c]; [ex_c; ex_a; ex_b]; [ex_b; ex_c; ex_a]] =
+  [Err EForbidden; Err EForbidden; Err EForbidden].
+Proof. vm_compute. reflexivity. Qed.
+
+(* UseLast (Pair.device in the executor) makes a class order dependent: reported, not claimed *)
+Example C15_uselast_is_order_dependent :
+  let sch := [("device", MUseLast)] in
+  let a := [("device", VAtom (AStr "d1"))] in
+  let b := [("device", VAtom (AStr "d2"))] in
+  order_free (MMerge sch) = false /\
+  same_mod_concat sch (merge sch a b) (merge sch b a) = false.
+Proof. vm_compute. split; reflexivity. Qed.
